@@ -165,10 +165,19 @@ def run(ctx, eng):
                                else getattr(t, 'attr', '?'))
         missing = {n for n in names if not any(
             m.exc_is_subclass(n, c) for c in caught)}
+        # where the handler sits is the code's business (it may have moved
+        # into a helper with the operation it guards): what is decided is
+        # that none of these classes leaves the function, while a
+        # ProtocolError can
+        esc = set(eng.R.of(f2.qual))
+        leaks = sorted(x for x in esc if any(
+            m.exc_is_subclass(x, n) for n in names))
+        translated = any(m.exc_is_subclass(x, 'ProtocolError') for x in esc)
+        ok_t = not leaks and (translated or not missing)
         ctx.ob('ESC.translate', f2.qual, 'translates %s' % '/'.join(
-            sorted(names)), not missing,
-            'handlers for %s that re-raise as ProtocolError (missing: %s)'
-            % (sorted(names), sorted(missing) or '-'), node=f2.node)
+            sorted(names)), ok_t,
+            'none of %s leaves the function, a ProtocolError can (leaves: '
+            '%s)' % (sorted(names), leaks or '-'), node=f2.node)
     # every frame handed to the connection has had its body parsed: the
     # facts the handlers rely on about frame fields (a PUSH_PROMISE never
     # promises stream 0, a PRIORITY frame has its five bytes, ...) are
